@@ -386,7 +386,7 @@ def _machine(res, holder):
 
 
 def shards(tier):
-    per = 300 if tier == "quick" else 4000
+    per = 300 if tier == "quick" else 15000
     return [{"kind": "machine", "n": per, "steps": 30, "idx": i} for i in range(16)]
 
 
